@@ -2,6 +2,8 @@
 // wrong key (C06), malformed input (C11, C12), interrupted encryption (C13), repeated operations in one process (C15).
 // Runs the repository's real runcrypt in-process (real threads) on in-memory regular files.
 #include "common.h"
+#include <thread>
+#include <atomic>
 #include "cry.h"
 #include <map>
 #include <set>
@@ -17,13 +19,17 @@ static std::string cfgs(int T) { return S(T) + " " + S(BSZ) + " " + S(HB); }
 extern "C" void wencry_verif_point(int, int) {}
 
 struct EncRes { bool ok; bytes file; bool input_intact; };
+// every operation gets its key through the SAME long-lived 16-byte buffer, as an application that keeps one key field would:
+// state remembered across operations by the ADDRESS of the key (instead of its bytes) then shows up as a wrong verdict
+alignas(16) static unsigned char g_keybuf[16];
+static unsigned g_echo_toggle = 0;
 static EncRes real_enc(int T, int c, int h, const bytes &key, const bytes &seed, const bytes &plain) {
   trace_case("file", "encrypt T=" + S(T) + " B=" + S(BSZ) + " H=" + S(HB) + " c=" + S(c) + " h=" + S(h) + " key=" + hex(key) + " seed=" + hex(seed) + " plain=" + hex(plain));
   MemFile in(plain), out;
   FILE *fi = in.openr(), *fo = out.openw();
-  alignas(16) unsigned char k[16]; memcpy(k, key.data(), 16);
+  unsigned char *k = g_keybuf; memcpy(k, key.data(), 16);
   std::vector<unsigned char> sd(seed.begin(), seed.end()); sd.push_back(0);
-  Settings st((char)c, (char)h, true);
+  Settings st((char)c, (char)h, (++g_echo_toggle % 3) != 0);      // both result printers are exercised: quiet (NullResPrint) and echoing (ResultPrint)
   EncRes r;
   { runcrypt rc(fi, fo, k, st, (u8_t)T); r.ok = rc.execute_encrypt(plain.size(), sd.data()); }
   r.file = out.contents(); r.input_intact = in.contents() == plain;
@@ -34,8 +40,8 @@ static DecRes real_dec(int T, const bytes &key, const bytes &file, bool with_out
   trace_case("file", "decrypt T=" + S(T) + " B=" + S(BSZ) + " H=" + S(HB) + " key=" + hex(key) + " file=" + hex(file));
   MemFile in(file), out;
   FILE *fi = in.openr(), *fo = with_out ? out.openw() : NULL;
-  alignas(16) unsigned char k[16]; memcpy(k, key.data(), 16);
-  Settings st((char)-1, (char)-1, true);
+  unsigned char *k = g_keybuf; memcpy(k, key.data(), 16);
+  Settings st((char)-1, (char)-1, (++g_echo_toggle % 3) != 0);
   DecRes r;
   { runcrypt rc(fi, fo, k, st, (u8_t)T); r.ok = rc.execute_decrypt(file.size()); }
   r.out = out.contents(); r.input_intact = in.contents() == file;
@@ -45,8 +51,8 @@ static DecRes real_ver(int T, const bytes &key, const bytes &file) {
   trace_case("file", "verify T=" + S(T) + " B=" + S(BSZ) + " H=" + S(HB) + " key=" + hex(key) + " file=" + hex(file));
   MemFile in(file);
   FILE *fi = in.openr();
-  alignas(16) unsigned char k[16]; memcpy(k, key.data(), 16);
-  Settings st((char)-1, (char)-1, true);
+  unsigned char *k = g_keybuf; memcpy(k, key.data(), 16);
+  Settings st((char)-1, (char)-1, (++g_echo_toggle % 3) != 0);
   DecRes r;
   { runcrypt rc(fi, NULL, k, st, (u8_t)T); r.ok = rc.execute_verify(file.size()); }
   r.input_intact = in.contents() == file;
@@ -135,7 +141,8 @@ static void suite_ivs(Rng &rng) {
       seen[ks] = b;
     }
   }
-  for (int c = 1; c <= 4; c++) for (int T : {2, 3, 4}) {
+  for (int c = 1; c <= 4; c++) for (int T : {2, 3, 4, 11, 15, 16}) {
+    if (T > 4 && c != 1 + T % 4 && !tier_thorough()) continue;
     bytes key = rng.buf(16), seed = rng.nzbuf(20);
     bytes one = rng.buf(chunk), plain;
     for (int i = 0; i < 2 * T + 1; i++) plain.insert(plain.end(), one.begin(), one.end());   // equal plaintext chunks
@@ -152,6 +159,7 @@ static void suite_ivs(Rng &rng) {
     EncRes e2 = real_enc(T, c, 0, key, seed2, plain);
     if (bytes(e.file.begin() + 48, e.file.begin() + body) == bytes(e2.file.begin() + 48, e2.file.begin() + body)) emitA(suite, "C18", "IV fields do not depend on the seed " + id);
     if (chunkc(0) == bytes(e2.file.begin() + body, e2.file.begin() + body + chunk)) emitA(suite, "C18", "first ciphertext chunk does not depend on the seed " + id);
+    for (int a = 0; a < T; a++) if (memcmp(&e.file[48 + 20 * a], &e2.file[48 + 20 * a], 20) == 0) emitA(suite, "C18", "stored IV " + S(a) + " does not depend on the seed " + id);
     // the T stored IVs are pairwise different
     for (int a = 0; a < T; a++) for (int b = a + 1; b < T; b++)
       if (memcmp(&e.file[48 + 20 * a], &e.file[48 + 20 * b], 20) == 0) emitA(suite, "C18", "two stored IVs are equal " + id);
@@ -234,6 +242,8 @@ static void suite_wrongkey(Rng &rng) {
     EncRes e = real_enc(T, c, h, key, seed, plain);
     auto one = [&](const bytes &k2, bool ml) {
       tried++;
+      // the right key is used (successfully) in between, as in a session: whatever that leaves behind must not make a wrong key pass
+      if (tried % 3 == 1) { DecRes g = tried % 2 ? real_ver(T, key, e.file) : real_dec(T, key, e.file); if (!g.ok) emitA(suite, "C06", "the right key was rejected key=" + hex(key) + " file=" + hex(e.file)); }
       DecRes v = real_ver(T, k2, e.file); DecRes d = real_dec(T, k2, e.file);
       std::string id = "key=" + hex(key) + " wrong=" + hex(k2) + " file=" + hex(e.file);
       if (v.ok) emitA(suite, "C06", "verification accepted a wrong key " + id);
@@ -246,6 +256,20 @@ static void suite_wrongkey(Rng &rng) {
     for (int b1 = 0; b1 < 128; b1 += 3) for (int b2 = b1 + 1; b2 < 128; b2 += 7) { bytes k2 = key; k2[b1 / 8] ^= (unsigned char)(1 << (b1 % 8)); k2[b2 / 8] ^= (unsigned char)(1 << (b2 % 8)); one(k2, false); }
     { bytes z(16, 0); if (z != key) one(z, true); }
   }
+  // verifications running at the same time in one process (each on its own stream and its own runcrypt object): a wrong key must not pass
+  // because another thread is verifying with the right key
+  { int T = 2; bytes key = rng.key16(), seed = rng.nzbuf(9), plain = rng.buf(200); EncRes e = real_enc(T, 1, 0, key, seed, plain);
+    std::atomic<long> attempts(0), accepted(0), rightrejected(0); std::atomic<bool> stop(false);
+    auto verify_with = [&](const bytes &k2) { MemFile in(e.file); FILE *fi = in.openr(); alignas(16) unsigned char k[16]; memcpy(k, k2.data(), 16); Settings st((char)-1, (char)-1, true); bool ok; { runcrypt rc(fi, NULL, k, st, (u8_t)T); ok = rc.execute_verify(e.file.size()); } return ok; };
+    trace_case(suite, "concurrent verifications key=" + hex(key) + " file=" + hex(e.file));
+    std::vector<std::thread> th;
+    for (int t = 0; t < 3; t++) th.emplace_back([&]() { while (!stop) if (!verify_with(key)) rightrejected++; });
+    bytes firstbad;
+    for (int t = 0; t < 2; t++) th.emplace_back([&, t]() { Rng r2(1234 + t); while (!stop) { bytes k2 = key; k2[r2.below(16)] ^= (unsigned char)(1 << r2.below(8)); attempts++; if (verify_with(k2)) accepted++; } });
+    usleep(tier_thorough() ? 4000000 : 900000); stop = true; for (auto &x : th) x.join();
+    if (accepted > 0) emitA(suite, "C06", S(accepted) + " of " + S(attempts) + " verifications with a wrong key were accepted while other threads verified the same file with the right key; key=" + hex(key) + " file=" + hex(e.file));
+    if (rightrejected > 0) emitA(suite, "C06", "the right key was rejected " + S(rightrejected) + " times while other threads verified with wrong keys; key=" + hex(key));
+    emitI(suite, "concurrent_wrong_key_attempts", S(attempts)); }
   emitI(suite, "wrong_keys", S(tried));
 }
 
@@ -286,6 +310,14 @@ static void suite_malformed(Rng &rng) {
     for (size_t i = 0; i < 48 + 20 * (size_t)T && i < F.size(); i++) { bytes m = F; m[i] ^= (unsigned char)(1 + rng.below(255)); malformed_case(suite, T, key, m, "header byte " + S((long)i), 0); }
     // a valid file read with a different worker count than it was written with
     for (int T2 : {1, 2, 5}) if (T2 != T) malformed_case(suite, T2, key, F, "decrypted with T=" + S(T2) + " but written with T=" + S(T), 0);
+  }
+  // authentic files with many workers (header longer than 255 bytes from T = 11 on): accepted, output bounded by the body, prefixes rejected
+  for (int T : {10, 11, 12, 16}) {
+    bytes seed = rng.nzbuf(10), plain = rng.buf(rng.below(3) == 0 ? 0 : rng.below(70)); int c = T % 5, h = T % 3;
+    EncRes e = real_enc(T, c, h, key, seed, plain); const bytes &F = e.file;
+    malformed_case(suite, T, key, F, "authentic file written with T=" + S(T), 0);
+    for (size_t cut : {(size_t)1, (size_t)16, (size_t)17}) if (F.size() > cut) malformed_case(suite, T, key, bytes(F.begin(), F.end() - cut), "authentic file (T=" + S(T) + ") cut by " + S((long)cut), 0);
+    { bytes m = F; m[48 + 20 * (size_t)T - 1] ^= 1; malformed_case(suite, T, key, m, "last IV byte changed (T=" + S(T) + ")", 0); }
   }
   // verify and decrypt must agree on a file whatever was verified or decrypted just before in the same process
   // (a result remembered from a related file must not be reused): op1 on the authentic file, then op2 on a same-size variant
@@ -349,7 +381,7 @@ static void suite_crash(Rng &rng) {
     FILE *fo = fopencookie(&ck, "w+", io);
     if (unbuffered) setvbuf(fo, NULL, _IONBF, 0); else { static char sbuf[256]; setvbuf(fo, sbuf, _IOFBF, 37 + (ei % 100)); }  // small odd buffer: writes are re-chunked by stdio
     MemFile in(plain); FILE *fi = in.openr();
-    alignas(16) unsigned char k[16]; memcpy(k, key.data(), 16);
+    unsigned char *k = g_keybuf; memcpy(k, key.data(), 16);
     std::vector<unsigned char> sd(seed.begin(), seed.end()); sd.push_back(0);
     Settings st((char)c, (char)h, true);
     { runcrypt rc(fi, fo, k, st, (u8_t)T); rc.execute_encrypt(plain.size(), sd.data()); }
@@ -403,18 +435,21 @@ static OpRes do_op(const Op &o) {
   else { DecRes v = real_ver(o.T, o.key, o.data); r.ok = v.ok; }
   return r;
 }
+static std::string g_self_exe;
+// the same operation in a FRESH process image (fork + exec of this binary, "freshop" mode): nothing the parent has computed, cached or
+// left behind in static storage is inherited
 static OpRes do_op_fresh(const Op &o) {
-  int p[2]; if (pipe(p) != 0) abort();
+  int p[2], q[2]; if (pipe(p) != 0 || pipe(q) != 0) abort();
   fflush(g_proto);
   pid_t pid = fork();
   if (pid == 0) {
-    close(p[0]);
-    OpRes r = do_op(o);
-    unsigned char okb = r.ok; uint32_t n = (uint32_t)r.out.size();
-    ssize_t w = write(p[1], &okb, 1); w = write(p[1], &n, 4); if (n) w = write(p[1], r.out.data(), n); (void)w;
-    _exit(0);
+    dup2(q[0], 0); dup2(p[1], 3); close(p[0]); close(p[1]); close(q[0]); close(q[1]);
+    char *av[] = {(char *)g_self_exe.c_str(), (char *)"freshop", NULL};
+    execv(g_self_exe.c_str(), av); _exit(126);
   }
-  close(p[1]);
+  close(p[1]); close(q[0]);
+  { std::string in = S(o.kind) + " " + S(o.T) + " " + S(o.c) + " " + S(o.h) + " " + hex(o.key) + " " + (o.seed.empty() ? std::string("-") : hex(o.seed)) + " " + (o.data.empty() ? std::string("-") : hex(o.data)) + "\n";
+    size_t off = 0; while (off < in.size()) { ssize_t w = write(q[1], in.data() + off, in.size() - off); if (w <= 0) break; off += w; } close(q[1]); }
   OpRes r; unsigned char okb = 0; uint32_t n = 0;
   auto rd = [&](void *b, size_t len) { size_t got = 0; while (got < len) { ssize_t k = read(p[0], (char *)b + got, len - got); if (k <= 0) return false; got += k; } return true; };
   bool good = rd(&okb, 1) && rd(&n, 4); r.ok = okb; if (good && n) { r.out.resize(n); good = rd(r.out.data(), n); }
@@ -430,14 +465,18 @@ static void suite_proc(Rng &rng) {
     std::vector<bytes> files; std::vector<bytes> keys; std::vector<int> fT;
     int len = 2 + rng.below(maxlen - 1);
     std::string hist;
+    bytes base_key = rng.buf(16); size_t base_z = rng.below(8); base_key[base_z] = 0;
     for (int oi = 0; oi < len; oi++) {
       Op o; o.kind = files.empty() ? 0 : rng.below(3); o.T = 1 + rng.below(5); if (rng.below(6) == 0) o.T = 16; o.c = rng.below(5); o.h = rng.below(3);
       o.key = rng.key16(); o.seed = rng.nzbuf(6);
+      // related keys: half of the keys of a history are the history's base key (which has a zero byte at position z <= 7) changed only
+      // BEHIND that zero byte, or only in odd-indexed bytes: caches that compare keys as C strings or partially confuse them
+      if (rng.below(2)) { o.key = base_key; if (rng.below(3)) o.key[base_z + 1 + rng.below((uint32_t)(15 - base_z))] ^= (unsigned char)(1 + rng.below(255)); else o.key[9 + 2 * rng.below(4)] ^= 0x10; }
       if (o.kind == 0) { size_t n = rng.below(3) == 0 ? 16 * (size_t)BSZ * (1 + rng.below(3)) + rng.below(20) : rng.below(90); o.data = rng.padlike(n); }
       else {
         size_t fi = rng.below((uint32_t)files.size()); o.data = files[fi]; o.key = keys[fi]; o.T = fT[fi];
         int mode = rng.below(4);  // 0,1: valid; 2: wrong key; 3: damaged / truncated / garbage
-        if (mode == 2) o.key = rng.buf(16);
+        if (mode == 2) { if (rng.below(2)) o.key = rng.buf(16); else o.key[rng.below(16)] ^= (unsigned char)(1 << rng.below(8)); }   // unrelated wrong key, or a one-bit neighbour
         if (mode == 3) { int w = rng.below(3); if (w == 0 && !o.data.empty()) o.data[rng.below((uint32_t)o.data.size())] ^= 0x40; else if (w == 1) o.data.resize(rng.below((uint32_t)o.data.size() + 1)); else o.data = rng.buf(rng.below(100)); }
       }
       OpRes a = do_op(o);
@@ -459,7 +498,69 @@ static void suite_proc(Rng &rng) {
   emitI(suite, "operations", S(ops)); emitI(suite, "histories", S(nhist));
 }
 
+// ---------------- I/O faults (C04: every operation returns; C15: a failed operation leaves the process as it found it) ----------------
+static void suite_iofault(Rng &rng) {
+  const char *suite = "iofault"; long ops = 0, rfaults = 0, wfaults = 0;
+  size_t chunk = 16 * (size_t)BSZ;
+  auto state_clean = [&](const std::string &what) {
+    if (bufferctrl::verif_live_num() != 0) emitA(suite, "C15", "live buffer counter is " + S(bufferctrl::verif_live_num()) + " after " + what);
+    if (buffergroup::verif_instance() != NULL) emitA(suite, "C15", "buffer group singleton survives " + what); };
+  auto followup = [&](const std::string &what) {      // an ordinary round trip right after the faulty operation must be as in a fresh process
+    int T = 1 + rng.below(3), c = rng.below(5), h = rng.below(3); bytes k = rng.key16(), sd = rng.nzbuf(7), pl = rng.buf(chunk * 2 + rng.below(40));
+    EncRes e = real_enc(T, c, h, k, sd, pl);
+    emitM(suite, "enc " + cfgs(T) + " " + S(c) + " " + S(h) + " " + hex(k) + " " + hex(sd) + " " + hex(pl), hex(e.file));
+    DecRes d = real_dec(T, k, e.file);
+    if (!e.ok || !d.ok || d.out != pl) emitA(suite, "C15", "an ordinary encrypt/decrypt round trip fails right after " + what + " (in a fresh process it succeeds)");
+    state_clean("the round trip that followed " + what); };
+  for (int rep = 0; rep < (tier_thorough() ? 40 : 8); rep++) {
+    int T = 1 + rep % 4, c = rep % 5, h = rep % 3; bytes key = rng.key16(), seed = rng.nzbuf(8), plain = rng.buf(chunk * (1 + rep % 3) + rng.below(50));
+    EncRes good = real_enc(T, c, h, key, seed, plain);
+    // read faults on the input of encrypt / verify / decrypt, at several points (header, first chunk, later chunk, the pipeline phase of decrypt)
+    std::vector<long> pts = {0, 5, (long)chunk - 3, (long)chunk + 7, (long)plain.size() - 1};
+    for (long pt : pts) { if (pt < 0) continue;
+      { FaultIn fin; fin.data = plain; fin.fail_after = pt; FILE *fi = open_fault_in(&fin); setvbuf(fi, NULL, _IONBF, 0); MemFile out; FILE *fo = out.openw();
+        std::string what = "an encryption whose input fails with EIO after " + S(pt) + " bytes (T=" + S(T) + " c=" + S(c) + " n=" + S((long)plain.size()) + ")"; trace_case(suite, what);
+        memcpy(g_keybuf, key.data(), 16); std::vector<unsigned char> sd(seed.begin(), seed.end()); sd.push_back(0); Settings st((char)c, (char)h, true);
+        { runcrypt rc(fi, fo, g_keybuf, st, (u8_t)T); rc.execute_encrypt(plain.size(), sd.data()); } ops++; rfaults += fin.faults; state_clean(what); followup(what); }
+      for (int dv = 0; dv < 2; dv++) { FaultIn fin; fin.data = good.file; fin.fail_after = dv == 0 ? pt + 48 : (long)good.file.size() - 48 + 48 + 20 * T + pt;   // dv=1: the fault falls into the pipeline phase of decrypt (after verify has read the file once)
+        FILE *fi = open_fault_in(&fin); setvbuf(fi, NULL, _IONBF, 0); MemFile out; FILE *fo = out.openw();
+        std::string what = std::string(dv ? "a decryption" : "a verification") + " whose input fails with EIO after " + S(fin.fail_after) + " bytes (T=" + S(T) + " file of " + S((long)good.file.size()) + " bytes)"; trace_case(suite, what);
+        memcpy(g_keybuf, key.data(), 16); Settings st((char)-1, (char)-1, true);
+        { runcrypt rc(fi, dv ? fo : NULL, g_keybuf, st, (u8_t)T); if (dv) rc.execute_decrypt(good.file.size()); else rc.execute_verify(good.file.size()); } if (!dv) fclose(fo);
+        ops++; rfaults += fin.faults; state_clean(what); if (pt == pts[1]) followup(what); }
+    }
+    // a directory as input (fopen succeeds, every read fails)
+    { FILE *fi = fopen("/", "rb"); if (fi) { MemFile out; FILE *fo = out.openw(); std::string what = "an encryption whose input is a directory"; trace_case(suite, what);
+        memcpy(g_keybuf, key.data(), 16); std::vector<unsigned char> sd(seed.begin(), seed.end()); sd.push_back(0); Settings st((char)c, (char)h, true);
+        { runcrypt rc(fi, fo, g_keybuf, st, (u8_t)T); rc.execute_encrypt(0, sd.data()); } ops++; state_clean(what); followup(what); } }
+    // write faults on the output of encrypt / decrypt (disk full after `limit` bytes)
+    for (long limit : {0L, 30L, (long)(48 + 20 * T + 5), (long)(48 + 20 * T + chunk + 3)}) {
+      { MemFile in(plain); FILE *fi = in.openr(); FaultOut fout; fout.limit = limit; FILE *fo = open_fault_out(&fout); setvbuf(fo, NULL, _IONBF, 0);
+        std::string what = "an encryption whose output fails with ENOSPC after " + S(limit) + " bytes (T=" + S(T) + " c=" + S(c) + " n=" + S((long)plain.size()) + ")"; trace_case(suite, what);
+        memcpy(g_keybuf, key.data(), 16); std::vector<unsigned char> sd(seed.begin(), seed.end()); sd.push_back(0); Settings st((char)c, (char)h, true);
+        { runcrypt rc(fi, fo, g_keybuf, st, (u8_t)T); rc.execute_encrypt(plain.size(), sd.data()); } ops++; wfaults += fout.faults; state_clean(what); followup(what); }
+      { MemFile in(good.file); FILE *fi = in.openr(); FaultOut fout; fout.limit = limit; FILE *fo = open_fault_out(&fout); setvbuf(fo, NULL, _IONBF, 0);
+        std::string what = "a decryption whose output fails with ENOSPC after " + S(limit) + " bytes (T=" + S(T) + ")"; trace_case(suite, what);
+        memcpy(g_keybuf, key.data(), 16); Settings st((char)-1, (char)-1, true);
+        { runcrypt rc(fi, fo, g_keybuf, st, (u8_t)T); rc.execute_decrypt(good.file.size()); } ops++; wfaults += fout.faults; state_clean(what); if (limit == 30) followup(what); }
+    }
+  }
+  emitI(suite, "faulty_operations", S(ops)); emitI(suite, "read_faults_fired", S(rfaults)); emitI(suite, "write_faults_fired", S(wfaults));
+}
+
 int main(int argc, char **argv) {
+  { char buf[4096]; ssize_t n = readlink("/proc/self/exe", buf, sizeof buf - 1); g_self_exe = n > 0 ? std::string(buf, n) : std::string(argv[0]); }
+  if (argc > 1 && std::string(argv[1]) == "freshop") {      // one operation read from stdin, result written to fd 3, in a new process image
+    std::string line; { char buf[65536]; ssize_t n; while ((n = read(0, buf, sizeof buf)) > 0) line.append(buf, n); }
+    std::vector<std::string> f; { size_t pos = 0; while (pos < line.size()) { size_t e = line.find_first_of(" \n", pos); if (e == std::string::npos) e = line.size(); if (e > pos) f.push_back(line.substr(pos, e - pos)); pos = e + 1; } }
+    if (f.size() != 7) return 125;
+    g_proto = fopen("/dev/null", "w");
+    Op o; o.kind = atoi(f[0].c_str()); o.T = atoi(f[1].c_str()); o.c = atoi(f[2].c_str()); o.h = atoi(f[3].c_str()); o.key = unhex(f[4]); o.seed = f[5] == "-" ? bytes() : unhex(f[5]); o.data = f[6] == "-" ? bytes() : unhex(f[6]);
+    OpRes r = do_op(o);
+    unsigned char okb = r.ok; uint32_t n = (uint32_t)r.out.size();
+    ssize_t w = write(3, &okb, 1); w = write(3, &n, 4); size_t off = 0; while (off < n) { w = write(3, r.out.data() + off, n - off); if (w <= 0) break; off += w; }
+    return 0;
+  }
   proto_init();
   long seed = env_long("VERIF_SEED", 1);
   std::string which = argc > 1 ? argv[1] : "all";
@@ -472,6 +573,7 @@ int main(int argc, char **argv) {
   if (which == "malformed" || which == "all") suite_malformed(rng);
   if (which == "crash" || which == "all") suite_crash(rng);
   if (which == "proc" || which == "all") suite_proc(rng);
+  if (which == "iofault") suite_iofault(rng);
   fflush(g_proto);
   return 0;
 }
